@@ -2,6 +2,7 @@ package props
 
 import (
 	"fmt"
+	"sort"
 	"strings"
 
 	lib "github.com/corazawaf/libinjection-go"
@@ -115,6 +116,37 @@ func evalC14Seq(w *fw.W, s, _ string) {
 // c14ListSeps: separators of long lists, calibrated once on the repaired pinned tree (VERIF_CALIB=C14 prints the
 // separators for which some length 1..300 is reported; those are not in this list).
 var c14ListSeps = []string{", ", " ", ". ", " - ", ": ", "; "}
+
+// c14NearKeywords: plain words one edit away from a key of the current table.
+func c14NearKeywords() []string {
+	var keys []string
+	for k, v := range c14Keys {
+		if v != 'F' && isIdent(k) {
+			keys = append(keys, asciiLower(k))
+		}
+	}
+	sort.Strings(keys)
+	seen := map[string]bool{}
+	var out []string
+	add := func(wd string) {
+		if !seen[wd] && isIdent(wd) && c14Admissible(wd) {
+			seen[wd] = true
+			out = append(out, wd)
+		}
+	}
+	for _, k := range keys {
+		for _, sfx := range []string{"1", "7", "10", "16", "256", "x", "s", "_"} {
+			add(k + sfx)
+		}
+		add("x" + k)
+		add("_" + k)
+		add(k + k)
+		for i := 1; i < len(k); i++ {
+			add(k[:i] + "_" + k[i:])
+		}
+	}
+	return out
+}
 
 func c14Lists() [][2]string {
 	var out [][2]string
@@ -296,6 +328,14 @@ func init() {
 					w.Trie(al, 1, w.Pick(7, 8))
 				},
 				Eval: func(w *fw.W, s, a string) { evalC14Seq(w, strings.TrimSuffix(s, " "), a) }},
+			{Name: "near-keyword-words", Space: "for every non-fingerprint key of the current table: the key with 1..3 digits appended, with a letter appended / prepended, with '_' inserted at every position, doubled, each in lower case, kept only when it is an admissible plain word (identifier, not a key or key component); as a single token and in 6 word/number sentences", Share: 2,
+				Run: func(w *fw.W) {
+					words := c14NearKeywords()
+					tmpl := []string{"W", "page W 10", "7 W wins", "1 W 2 W 3", "W W", "12 W 3 W 4", "foo W bar"}
+					w.Each(len(words)*len(tmpl), func(i int) {
+						w.Item(strings.ReplaceAll(tmpl[i%len(tmpl)], "W", words[i/len(tmpl)]), "near-keyword "+tmpl[i%len(tmpl)])
+					})
+				}, Eval: evalC14Shape},
 			{Name: "long-lists", Space: "lists of k items for EVERY k in 1..300 (+ the neighbourhood of new integer constants): items = words / numbers / alternating, separators in the calibrated set, with and without a final full stop", Share: 1,
 				Run: func(w *fw.W) {
 					var items [][2]string
